@@ -60,3 +60,46 @@ Record PInv (fx : fixes) (st : state) : Prop := {
             forall r e, In r (s_rounds st) -> In e (rd_encs r) -> live e -> in_range e (chunk_of (p_rpc pe)) = false;
   pv_rounds : forall r, In r (s_rounds st) -> PR1 fx st r
 }.
+
+(* ------------------------------------------------------------------ the payoff: PInv gives the provenance hypothesis of InvContent *)
+Lemma commit_tracts_nth rd eo tk off len nv idx : In (tk, off, len, nv, idx) (Xcommit_tracts rd eo) ->
+  exists i, nth_error (e_chunks eo) i = Some (tk, off, len) /\ idx = Z.of_nat i /\
+            nv = match find_ptr (rd_tracts rd) tk with Some p => pt_ver p + 1 | None => 0 end.
+Proof.
+  unfold Xcommit_tracts.
+  assert (G: forall l acc k, In (tk, off, len, nv, idx)
+              (fst (fold_left (fun '(acc, i) '(tk', off, len) =>
+                    (acc ++ [(tk', off, len, match find_ptr (rd_tracts rd) tk' with Some p => pt_ver p + 1 | None => 0 end, i)], i + 1)) l (acc, Z.of_nat k))) ->
+              In (tk, off, len, nv, idx) acc \/
+              exists i, nth_error l i = Some (tk, off, len) /\ idx = Z.of_nat (k + i) /\ nv = match find_ptr (rd_tracts rd) tk with Some p => pt_ver p + 1 | None => 0 end).
+  { induction l as [|[[a b] c] l IH]; intros acc k H; cbn [fold_left fst] in H; [left; exact H|].
+    replace (Z.of_nat k + 1) with (Z.of_nat (S k)) in H by lia.
+    destruct (IH _ _ H) as [K|[i [K1 [K2 K3]]]].
+    - apply in_app_or in K. destruct K as [K|[K|[]]]; [left; exact K|]. injection K as -> -> -> <- <-. right. exists O. split; [reflexivity|]. split; [f_equal; lia|reflexivity].
+    - right. exists (S i). split; [exact K1|]. split; [rewrite K2; f_equal; lia|exact K3]. }
+  intros H. destruct (G (e_chunks eo) [] O H) as [[]|[i [K1 [K2 K3]]]]. exists i. auto.
+Qed.
+
+Lemma PInv_src fx st : fx6 fx = true -> PInv fx st -> RInv fx st -> XSrcAll st.
+Proof.
+  intros Hfx HP HR pe rd eo Hpe Kc Fr Fe tk off len nv idx Hin [d [Dg [Dv Dr]]].
+  pose proof (find_round_in _ _ _ Fr) as Hr. pose proof (find_round_op _ _ _ Fr) as Ho. symmetry in Ho.
+  pose proof (rv_rounds _ _ HR rd Hr) as R1. pose proof (pv_rounds _ _ HP rd Hr) as P1.
+  destruct (find_enc_chunk_in _ _ _ Fe) as [Heo _].
+  assert (S5: e_stage eo = 5).
+  { destruct (ri_exp _ _ _ R1 pe Hpe Ho) as [[K _]|[[K _]|[_ [e' [A [K _]]]]]]; try (rewrite Kc in K; vm_compute in K; discriminate).
+    unfold att_enc in A. rewrite Kc in A. change (K_Commit =? K_PackTracts) with false in A. change (K_Commit =? K_RSEncode) with false in A.
+    change (K_Commit =? K_Commit) with true in A. cbn [orb] in A. unfold aux_nth in Fe. rewrite Fe in A. injection A as <-.
+    assert (Kn: k_kind (p_rpc pe) <> -1) by (rewrite Kc; vm_compute; discriminate).
+    destruct (stage_kind_cases _ _ K Kn) as [[_ Q]|[[_ Q]|[[_ Q]|[S Q]]]]; try (rewrite Kc in Q; vm_compute in Q; discriminate). exact S. }
+  assert (Lv: live eo) by (unfold live; rewrite S5; discriminate).
+  destruct (commit_tracts_nth _ _ _ _ _ _ _ Hin) as [i [Ni [Ei Env]]].
+  destruct (pi_piece _ _ _ P1 eo i Heo Lv tk off len Ni (or_intror (or_intror (or_introl S5)))) as [app [tgt [Pg Sr]]].
+  destruct Sr as [p [h0 [s0 [rep [Fp [Hf [Zs [Rg [_ [Fz _]]]]]]]]]].
+  exists p, h0, s0, rep. split; [exact Fp|]. split; [exact Hf|]. split; [exact Zs|]. split; [exact Rg|].
+  unfold Xpacked_at. subst idx. rewrite Nat2Z.id, Pg. cbn [pc_items find]. rewrite tk_eqb_refl.
+  rewrite Fp in Env. pose proof (find_ptr_tk _ _ _ Fp) as Ptk.
+  destruct (Fz S5) as [[rep' [Rg' [Ra' _]]]|No].
+  - rewrite Ptk, Rg in Rg'. injection Rg' as <-. exact Ra'.
+  - exfalso. apply No. exists d. rewrite Ptk. split; [exact Dg|]. split; [lia|exact Dr].
+Qed.
